@@ -140,6 +140,20 @@ Qed.
 
 (* ---------------------------------------------------------------------------------------- *)
 (* reading of one step *)
+
+(* "Whenever the advertised range contains a missing sample, the lowest one is requested": if the
+   range of the HEARTBEAT contains a number that is not DECLARED — m1 being the lowest such number at
+   or above max(first, 1) — then some number between m0, the lowest number at or above max(first, 1)
+   that is not RECORDED, and m1 is requested (m0 <= m1).  Which number of [m0, m1] it is depends on
+   how much of a GAP range that started above its ack base the reader remembers: m0 for the code as
+   it is, m1 for a reader that remembers everything it was told. *)
+Definition LowestReqP (s1 : wspec) (first last : Z) (rs : list reply) : Prop :=
+  forall m0 m1, Z.max first 1 <= m1 <= last -> known s1 m1 = false ->
+    (forall m, Z.max first 1 <= m < m1 -> known s1 m = true) ->
+    Z.max first 1 <= m0 -> recorded s1 m0 = false ->
+    (forall m, Z.max first 1 <= m < m0 -> recorded s1 m = true) ->
+    m0 <= m1 /\ exists r, m0 <= r <= m1 /\ requested r rs = true.
+
 Definition StepP (S : sstate) (o : op) (so : sobs) (S' : sstate) : Prop :=
   let w := op_writer o in
   match S w with
@@ -148,12 +162,8 @@ Definition StepP (S : sstate) (o : op) (so : sobs) (S' : sstate) : Prop :=
       let s1 := add_pts (spec_input s o) (map snd (so_adds so)) in
       (forall r, In r (so_replies so) -> ReplyP w s1 r /\ writer_of r = w)
       /\ (effective_hb s o = true ->
-          (* the lowest number of the advertised range that is not recorded is requested *)
           match o with
-          | Hb _ first last _ _ =>
-              forall m0, Z.max first 1 <= m0 <= last -> recorded s1 m0 = false ->
-                (forall m, Z.max first 1 <= m < m0 -> recorded s1 m = true) ->
-                requested m0 (so_replies so) = true
+          | Hb _ first last _ _ => LowestReqP s1 first last (so_replies so)
           | _ => True
           end)
       /\ adds_okb o (so_adds so) = true
@@ -170,10 +180,7 @@ Proof.
     split; [apply (replies_ok_sound _ _ _ _ Er)|]. split; [|split; [reflexivity|]].
     + intros He. rewrite He in El. cbn [andb] in El. apply negb_false_iff in El.
       destruct o as [| |w first last count final|]; try exact I.
-      cbn [lowest_requested_ok] in El. intros m0 Hr Hk Hb.
-      pose proof (lowest_unknown_char (rec_view _) _ m0 (proj1 Hr) Hk Hb) as Hl.
-      unfold lowest_unrecorded in El. rewrite Hl in El.
-      destruct (Z.leb_spec m0 last); [exact El|lia].
+      exact (lowest_requested_ok_spec _ _ _ _ _ _ _ El).
     + exists s2. split; reflexivity.
   - destruct (so_replies so), (so_adds so); try discriminate. intros H; inversion H; auto.
 Qed.
@@ -295,13 +302,35 @@ Qed.
 Theorem lowest_requested c i w first last count final so s s1 : wf_case c = true ->
   summary_at c i (Hb w first last count final) so s s1 ->
   effective_hb s (Hb w first last count final) = true ->
-  forall m0, Z.max first 1 <= m0 <= last -> recorded s1 m0 = false ->
+  forall m0 m1, Z.max first 1 <= m1 <= last -> known s1 m1 = false ->
+    (forall m, Z.max first 1 <= m < m1 -> known s1 m = true) ->
+    Z.max first 1 <= m0 -> recorded s1 m0 = false ->
     (forall m, Z.max first 1 <= m < m0 -> recorded s1 m = true) ->
-    requested m0 (so_replies so) = true.
+    m0 <= m1 /\ exists r, m0 <= r <= m1 /\ requested r (so_replies so) = true.
 Proof.
   intros Hwf Hs He. destruct Hs as (Si0 & A & B & C & D & E).
   destruct (step_at c i _ so s s1 Hwf (ex_intro _ Si0 (conj A (conj B (conj C (conj D E)))))) as (Si & S' & Hsi & HP).
   unfold StepP in HP. rewrite Hsi in HP. destruct HP as (_ & HL & _). rewrite <- E in HL. exact (HL He).
+Qed.
+
+(* when no GAP of the history was cut below it — RECORDED and DECLARED agree below the lowest
+   not-declared number m1 of the range — m1 itself is requested *)
+Corollary lowest_requested_exact c i w first last count final so s s1 : wf_case c = true ->
+  summary_at c i (Hb w first last count final) so s s1 ->
+  effective_hb s (Hb w first last count final) = true ->
+  forall m1, Z.max first 1 <= m1 <= last -> known s1 m1 = false ->
+    (forall m, Z.max first 1 <= m < m1 -> known s1 m = true) ->
+    (forall m, Z.max first 1 <= m < m1 -> recorded s1 m = known s1 m) ->
+    requested m1 (so_replies so) = true.
+Proof.
+  intros Hwf Hs He m1 R1 K1 B1 Hag.
+  assert (K0 : recorded s1 m1 = false).
+  { destruct (recorded s1 m1) eqn:Er; [|reflexivity]. apply recorded_sub_known in Er. congruence. }
+  assert (B0 : forall m, Z.max first 1 <= m < m1 -> recorded s1 m = true).
+  { intros m Hm. rewrite Hag by exact Hm. now apply B1. }
+  destruct (lowest_requested c i w first last count final so s s1 Hwf Hs He m1 m1 R1 K1 B1 (proj1 R1) K0 B0)
+    as (_ & r & Hr & Hreq).
+  assert (r = m1) by lia. now subst r.
 Qed.
 
 Theorem nackfrag_sound c i o so s s1 : wf_case c = true -> summary_at c i o so s s1 ->
@@ -502,6 +531,35 @@ Proof.
   now apply Hrec.
 Qed.
 
+(* which number of [m0, m1] the model requests: m0, the lowest number that is not RECORDED (its ack
+   base), even when it was declared — in the far part of a GAP the reader cut.  This is about the
+   model, i.e. the code as it is (it needs the reader state); the oracle accepts any number between
+   m0 and the lowest not-declared one. *)
+Theorem lowest_unrecorded_requested c i w first last count final so s s1 : wf_case c = true ->
+  summary_at c i (Hb w first last count final) so s s1 ->
+  effective_hb s (Hb w first last count final) = true ->
+  forall m0, Z.max first 1 <= m0 <= last -> recorded s1 m0 = false ->
+    (forall m, Z.max first 1 <= m < m0 -> recorded s1 m = true) ->
+    requested m0 (so_replies so) = true.
+Proof.
+  intros Hwf (Si & A & B & C & D & E) He m0 Hr Hk Hb.
+  destruct (run_states _ _ _ _ _ _ Hwf (Inv_init (c_matched c)) A C) as (sti & HI & Hso).
+  unfold L in B. rewrite B in Hso. inversion Hso; subst so. clear Hso.
+  cbn [op_writer] in D.
+  cbn [effective_hb] in He. apply andb_true_iff in He as [Hacc Hc]. apply Z.ltb_lt in Hc.
+  destruct (r_prox sti w) as [p|] eqn:Ep; [|apply (Inv_matched _ _ w HI) in Ep; congruence].
+  destruct (Inv_InvW sti Si w p s HI Ep D) as [Hrel _].
+  assert (Hcnt : p_hb p < count) by (destruct Hrel; lia).
+  cbn [so_adds mk_sobs step] in E. rewrite Hacc in E. cbn [negb] in E.
+  cbn [so_replies mk_sobs step]. rewrite Hacc. cbn [negb].
+  rewrite hb_no_adds in E. cbn [map] in E. rewrite add_pts_nil in E. subst s1.
+  destruct (hb_first_le p s first count Hrel) as [Hf1 Hb1].
+  pose proof (hb_lu w p s first last count final Hrel Hacc Hcnt (Z.max first 1) ltac:(lia)) as E0.
+  pose proof (lowest_unknown_char (rec_view _) _ m0 (proj1 Hr) Hk Hb) as E1.
+  unfold lowest_unrecorded in E0. rewrite E1 in E0. injection E0 as ->.
+  apply (hb_requests_base sti Si w p s first last count final HI Hrel Hcnt). lia.
+Qed.
+
 (* the behaviour made visible: writer 1, reader's ack base 1.
      step 0  GAP [5, 1000)            recorded only within the window: 5..256 (252 markers)
      step 1  HEARTBEAT(1..1200)       ACKNACK base 1, bits 1..4
@@ -535,6 +593,41 @@ Lemma gap_window_example :
   /\ (* before step 8: the renewed GAP from the ack base is recorded whole *)
      option_map (fun s => (recorded s 300, recorded s 999, recorded s 1000, s_base s)) (gw_summary 8)
      = Some (true, true, false, 1000).
+Proof. vm_compute. repeat split. Qed.
+
+(* the tolerance of the "lowest missing one is requested" clause made visible: writer 1 sends
+   GAP [5, 1000) while the reader's ack base is 1, then DATA 1..4, then HEARTBEAT(1..1200).  The
+   lowest number that is not RECORDED is m0 = 257, the lowest that is not DECLARED is m1 = 1000.
+     - the code as it is (the model) has base 257 and requests 257..512            accepted (m0)
+     - a reader that remembers the GAP up to 512 has base 513, requests 513..768   accepted
+     - a reader that remembers the whole GAP has base 1000, requests 1000..1200    accepted (m1)
+     - a reader with base 1000 that requests 1001..1200 only                       rejected: it skips
+       1000, which nobody ever sent or declared (every other clause of the oracle holds for it)
+     - a reader with base 257 that requests 258..512 only                          accepted: 258 lies
+       in [m0, m1], the clause cannot tell it from a reader that remembers one number more.  Where
+       no GAP was cut (m0 = m1) the same behaviour is rejected: HEARTBEAT(1..1200) alone, ACKNACK
+       base 1 with bits 2..256 (last two lines). *)
+Definition tol_case : case :=
+  {| c_matched := [1];
+     c_ops := [Gap 1 5 1000 0 []; Data 1 1 None gw_pay; Data 1 2 None gw_pay; Data 1 3 None gw_pay;
+               Data 1 4 None gw_pay; Hb 1 1 1200 1 false] |}.
+Definition tol_so (adds : list (Z * Z)) (base : Z) (rs : list reply) : sobs :=
+  {| so_replies := rs; so_adds := adds; so_base := base; so_nch := 0; so_sum := 0 |}.
+(* observations of a reader whose ack base after DATA 4 is [base] and whose ACKNACK is (base, n, bits) *)
+Definition tol_obs (base n : Z) (bits : list Z) : obs :=
+  ORun [tol_so [] 1 []; tol_so [(1, 1)] 2 []; tol_so [(1, 2)] 3 []; tol_so [(1, 3)] 4 [];
+        tol_so [(1, 4)] base []; tol_so [] base [AckNack 1 base n bits 0]].
+Definition tol_case0 : case := {| c_matched := [1]; c_ops := [Hb 1 1 1200 1 false] |}.
+Lemma tolerance_example :
+  option_map so_replies (nth_error (L tol_case) 5) = Some [AckNack 1 257 256 (iota 257 256) 0]
+  /\ ok tol_case (run tol_case) = true
+  /\ ok tol_case (tol_obs 257 256 (iota 257 256)) = true
+  /\ ok tol_case (tol_obs 513 256 (iota 513 256)) = true
+  /\ ok tol_case (tol_obs 1000 201 (iota 1000 201)) = true
+  /\ ok tol_case (tol_obs 1000 201 (iota 1001 200)) = false
+  /\ ok tol_case (tol_obs 257 256 (iota 258 255)) = true
+  /\ ok tol_case0 (ORun [tol_so [] 1 [AckNack 1 1 256 (iota 1 256) 0]]) = true
+  /\ ok tol_case0 (ORun [tol_so [] 1 [AckNack 1 1 256 (iota 2 255) 0]]) = false.
 Proof. vm_compute. repeat split. Qed.
 
 (* ---------------------------------------------------------------------------------------- *)
